@@ -6,6 +6,7 @@ From Coq Require Import ZArith QArith List Bool String.
 Require Import WV.model.C06Cascade WV.model.C06Inherit WV.model.C06Values WV.model.C06Imports.
 Require Import WV.proofs.C06_cascade WV.proofs.C06_order WV.proofs.C06_inherit WV.proofs.C06_values WV.proofs.C06_imports.
 Require WV.base.Py WV.gen.GenCss WV.proofs.C06_gen_precedence WV.gen.GenMedia WV.proofs.C06_gen_media.
+Require WV.base.PyLink WV.gen.GenComputed WV.proofs.C06_gen_length WV.proofs.C06_gen_font_size WV.proofs.C06_gen_tuples.
 Import ListNotations.
 
 (* ================================================================ 1. the cascade *)
@@ -292,3 +293,148 @@ Theorem C06_source_evaluate_media_query (ql : list string) (dev : string) :
     (fun _ r => r = Some (Py.VBool (evaluate_media_query ql dev))) (fun _ => False).
 Proof. exact (C06_gen_media.gen_evaluate_media_query ql dev). Qed.
 Print Assumptions C06_source_evaluate_media_query.
+
+(* ================================================================ 5. source: the length computers
+   weasyprint/css/computed_values.py: length, pixel_length, length_pixels_only, line_height as REGENERATED on every
+   run (gen/GenComputed.v; ZERO_PIXELS, Dimension and the table LENGTHS_TO_PIXELS are read from css/properties.py
+   and css/utils.py as they are today).  Operations C06_gen_length.lops xr cr: exact rationals, the namedtuple
+   constructor, and character_ratio(style, 'x' | '0') answered by ANY two functions xr, cr of the style (the Pango
+   measure is an oracle); lops2 also answers a call of `length` by running the regenerated body of length.
+   style_val own rootfs root more: a style with style['font_size'] = own, style.root_style['font_size'] = rootfs,
+   style.is_root_element = root and any further entries; dim v u = Dimension(v, u). *)
+Open Scope Q_scope.
+Open Scope string_scope.
+
+(* the regenerated length() returns exactly what the hand model `length` (section 3 rests on it) says, for every
+   keyword / number / unit, every font-size argument, pixels_only or not, every style and property name: the value
+   itself (LSame) or the model's number of pixels (up to ==), bare or as Dimension(q, 'px'); it never raises *)
+Theorem C06_source_length xr cr own rootfs (root : bool) more (n : string) k (v : lval) (fs : option Q) (po : bool) :
+  C06_gen_length.res_ok po (C06_gen_length.lval_val k v)
+    (length (C06_gen_length.env_of xr cr own rootfs root more) (String.eqb n "font_size") fs v)
+    (PyLink.call_body (C06_gen_length.lops xr cr) C06_gen_length.length_fn
+       [C06_gen_length.style_val own rootfs root more; Py.VStr n; C06_gen_length.lval_val k v;
+        C06_gen_length.oq_val fs; Py.VBool po]).
+Proof. exact (C06_gen_length.gen_length xr cr own rootfs root more n k v fs po). Qed.
+Print Assumptions C06_source_length.
+
+(* the clause, about the source itself: relative units are resolved against the font-size ARGUMENT when one is
+   given (the font-size computer hands in the parent's font size), else against the element's own font size; rem
+   against the root element's - on the root element its own font size, except in font-size (root_style is then the
+   initial value) *)
+Theorem C06_source_length_relative_units xr cr own rootfs (root : bool) more n fs po v :
+  let st := C06_gen_length.style_val own rootfs root more in
+  let f := match fs with Some f => f | None => own end in
+  (exists q, q == v * f /\
+     C06_gen_length.length_call xr cr own rootfs root more n (C06_gen_length.dim v (Py.VStr "em")) fs po =
+     C06_gen_length.px_val po q) /\
+  (exists q, q == v * f * xr st /\
+     C06_gen_length.length_call xr cr own rootfs root more n (C06_gen_length.dim v (Py.VStr "ex")) fs po =
+     C06_gen_length.px_val po q) /\
+  (exists q, q == v * f * cr st /\
+     C06_gen_length.length_call xr cr own rootfs root more n (C06_gen_length.dim v (Py.VStr "ch")) fs po =
+     C06_gen_length.px_val po q) /\
+  (exists q, q == v * (if root && negb (String.eqb n "font_size") then own else rootfs) /\
+     C06_gen_length.length_call xr cr own rootfs root more n (C06_gen_length.dim v (Py.VStr "rem")) fs po =
+     C06_gen_length.px_val po q).
+Proof. exact (C06_gen_length.gen_length_relative_units xr cr own rootfs root more n fs po v). Qed.
+Print Assumptions C06_source_length_relative_units.
+
+(* percentages stay percentages (0% too: repair fbc7bb3) and auto / content / from-font stay themselves *)
+Theorem C06_source_length_percentage_kept xr cr own rootfs (root : bool) more n fs po v k :
+  C06_gen_length.length_call xr cr own rootfs root more n (C06_gen_length.dim v (Py.VStr "%")) fs po =
+  C06_gen_length.dim v (Py.VStr "%") /\
+  C06_gen_length.length_call xr cr own rootfs root more n (Py.VStr (C06_gen_length.kw_str k)) fs po =
+  Py.VStr (C06_gen_length.kw_str k).
+Proof. exact (C06_gen_length.gen_length_percentage_kept xr cr own rootfs root more n fs po v k). Qed.
+Print Assumptions C06_source_length_percentage_kept.
+
+(* absolute units: v * the entry of LENGTHS_TO_PIXELS as the source reads today (to_pixels: 1in = 96px = 72pt ...) *)
+Theorem C06_source_length_absolute_units xr cr own rootfs (root : bool) more n fs po v u f :
+  to_pixels u = Some f ->
+  exists q, q == v * f /\
+    C06_gen_length.length_call xr cr own rootfs root more n
+      (C06_gen_length.dim v (Py.VStr (C06_gen_length.unit_str u))) fs po = C06_gen_length.px_val po q.
+Proof. exact (C06_gen_length.gen_length_absolute_units xr cr own rootfs root more n fs po v u f). Qed.
+Print Assumptions C06_source_length_absolute_units.
+
+(* pixel_length (letter-spacing) keeps 'normal' and otherwise is length() with pixels_only; length_pixels_only
+   (column-width, outline-offset) likewise: the model's answer through the regenerated length *)
+Theorem C06_source_pixel_length xr cr own rootfs (root : bool) more n k v :
+  C06_gen_length.res_ok true (C06_gen_length.lval_val k v)
+    (length (C06_gen_length.env_of xr cr own rootfs root more) (String.eqb n "font_size") None v)
+    (PyLink.call_body (C06_gen_length.lops2 xr cr) C06_gen_length.pixel_length_fn
+       [C06_gen_length.style_val own rootfs root more; Py.VStr n; C06_gen_length.lval_val k v]) /\
+  PyLink.call_body (C06_gen_length.lops2 xr cr) C06_gen_length.pixel_length_fn
+    [C06_gen_length.style_val own rootfs root more; Py.VStr n; Py.VStr "normal"] = Py.VStr "normal" /\
+  C06_gen_length.res_ok true (C06_gen_length.lval_val k v)
+    (length (C06_gen_length.env_of xr cr own rootfs root more) (String.eqb n "font_size") None v)
+    (PyLink.call_body (C06_gen_length.lops2 xr cr) C06_gen_length.length_pixels_only_fn
+       [C06_gen_length.style_val own rootfs root more; Py.VStr n; C06_gen_length.lval_val k v]).
+Proof. exact (C06_gen_length.gen_pixel_length xr cr own rootfs root more n k v). Qed.
+Print Assumptions C06_source_pixel_length.
+
+(* the regenerated line_height returns the hand model's answer: 'normal', ('NUMBER', n), ('PIXELS', px) *)
+Theorem C06_source_line_height xr cr own rootfs (root : bool) more n v :
+  String.eqb n "font_size" = false -> C06_gen_length.lh_wf v ->
+  C06_gen_length.lh_ok (line_height (C06_gen_length.env_of xr cr own rootfs root more) v)
+    (PyLink.call_body (C06_gen_length.lops2 xr cr) C06_gen_length.line_height_fn
+       [C06_gen_length.style_val own rootfs root more; Py.VStr n; C06_gen_length.lh_val v]).
+Proof. exact (C06_gen_length.gen_line_height xr cr own rootfs root more n v). Qed.
+Print Assumptions C06_source_line_height.
+
+(* line-height: a percentage and em against the element's own font size, a number kept (about the source) *)
+Theorem C06_source_line_height_relative xr cr own rootfs (root : bool) more q :
+  (exists x, x == q / 100 * own /\
+     PyLink.call_body (C06_gen_length.lops2 xr cr) C06_gen_length.line_height_fn
+       [C06_gen_length.style_val own rootfs root more; Py.VStr "line_height"; C06_gen_length.dim q (Py.VStr "%")] =
+     Py.VList [Py.VStr "PIXELS"; Py.VNum x]) /\
+  (exists x, x == q * own /\
+     PyLink.call_body (C06_gen_length.lops2 xr cr) C06_gen_length.line_height_fn
+       [C06_gen_length.style_val own rootfs root more; Py.VStr "line_height"; C06_gen_length.dim q (Py.VStr "em")] =
+     Py.VList [Py.VStr "PIXELS"; Py.VNum x]) /\
+  PyLink.call_body (C06_gen_length.lops2 xr cr) C06_gen_length.line_height_fn
+    [C06_gen_length.style_val own rootfs root more; Py.VStr "line_height"; C06_gen_length.dim q Py.VNone] =
+  Py.VList [Py.VStr "NUMBER"; Py.VNum q].
+Proof. exact (C06_gen_length.gen_line_height_relative xr cr own rootfs root more q). Qed.
+Print Assumptions C06_source_line_height_relative.
+
+(* the regenerated font_size computer (table FONT_SIZE_KEYWORDS and INITIAL_VALUES['font_size'] as the source has
+   them today; the for / else searches of larger / smaller; its call of length() runs the regenerated length)
+   returns exactly the hand model `font_size`: the seven keywords, larger / smaller for EVERY parent size,
+   percentages, every length unit; parent = None on the root element.  fstyle: style_val plus style.parent_style *)
+Theorem C06_source_font_size xr cr own rootfs (root : bool) parent more v :
+  C06_gen_font_size.fs_wf v ->
+  C06_gen_font_size.fs_ok
+    (font_size (C06_gen_length.env_of xr cr own rootfs root
+                  (("parent_style", C06_gen_font_size.parent_val parent) :: more)) parent v)
+    (PyLink.call_body (C06_gen_length.lops2 xr cr) C06_gen_font_size.font_size_fn
+       [C06_gen_font_size.fstyle own rootfs root parent more; Py.VStr "font_size"; C06_gen_font_size.fs_val v]).
+Proof. exact (C06_gen_font_size.gen_font_size xr cr own rootfs root parent more v). Qed.
+Print Assumptions C06_source_font_size.
+
+(* the clause, about the source: in font-size, em and % are resolved against the PARENT's font size (the initial
+   16px on the root element), rem against the root element's (root_style) *)
+Theorem C06_source_font_size_relative xr cr own rootfs (root : bool) parent more q :
+  let call v := PyLink.call_body (C06_gen_length.lops2 xr cr) C06_gen_font_size.font_size_fn
+                  [C06_gen_font_size.fstyle own rootfs root parent more; Py.VStr "font_size"; v] in
+  (exists x, x == q * parent_or_initial parent /\ call (C06_gen_length.dim q (Py.VStr "em")) = Py.VNum x) /\
+  (exists x, x == q * parent_or_initial parent / 100 /\ call (C06_gen_length.dim q (Py.VStr "%")) = Py.VNum x) /\
+  (exists x, x == q * rootfs /\ call (C06_gen_length.dim q (Py.VStr "rem")) = Py.VNum x).
+Proof. exact (C06_gen_font_size.gen_font_size_relative xr cr own rootfs root parent more q). Qed.
+Print Assumptions C06_source_font_size_relative.
+
+(* the tuple computers length_tuple (border-spacing, size, clip: pixels_only) and length_or_percentage_tuple
+   (transform-origin), regenerated: for EVERY tuple of values (vals ps: each a keyword or Dimension(v, u)) the result
+   is a tuple of the same length whose elements are, one by one, the hand model's answers (each_ok = Forall2 res_ok);
+   nothing raises *)
+Theorem C06_source_length_tuples xr cr own rootfs (root : bool) more n (ps : list (C06_gen_length.lkw * lval)) :
+  (exists rs,
+     PyLink.call_body (C06_gen_length.lops2 xr cr) C06_gen_tuples.length_tuple_fn
+       [C06_gen_length.style_val own rootfs root more; Py.VStr n; Py.VList (C06_gen_tuples.vals ps)] = Py.VList rs /\
+     C06_gen_tuples.each_ok true (C06_gen_length.env_of xr cr own rootfs root more) (String.eqb n "font_size") ps rs) /\
+  (exists rs,
+     PyLink.call_body (C06_gen_length.lops2 xr cr) C06_gen_tuples.length_or_percentage_tuple_fn
+       [C06_gen_length.style_val own rootfs root more; Py.VStr n; Py.VList (C06_gen_tuples.vals ps)] = Py.VList rs /\
+     C06_gen_tuples.each_ok false (C06_gen_length.env_of xr cr own rootfs root more) (String.eqb n "font_size") ps rs).
+Proof. exact (C06_gen_tuples.gen_tuples xr cr own rootfs root more n ps). Qed.
+Print Assumptions C06_source_length_tuples.
